@@ -59,6 +59,10 @@ pub struct BType {
     pub docs: Option<BDocs>,
     pub body: BBody,
     pub order: u8,
+    /// 0 = builders end to end; 1 = the pieces are completed with the public finalize() calls and
+    /// assembled through the direct constructors (Type::new, TypeDefComposite::new)
+    #[serde(default)]
+    pub assemble: u8,
 }
 
 fn perm(n: usize, sel: u8) -> Vec<usize> {
@@ -165,6 +169,7 @@ impl BType {
         }
         let order = perm(calls.len(), self.order / 2);
         let head: String = order.iter().map(|i| calls[*i].clone()).collect();
+        let direct = self.assemble % 2 == 1 && !matches!(self.body, BBody::Tuple(_));
         if let BBody::Tuple(elems) = &self.body {
             let metas: Vec<String> = elems.iter().map(|t| format!("meta_type::<{}>()", t.rust(&c))).collect();
             s.push_str(&format!("    let t: Type<MetaForm> = scale_info::TypeDefTuple::new(vec![{}]).into();\n", metas.join(", ")));
@@ -200,11 +205,39 @@ impl BType {
                 format!(".variant({v})")
             }
         };
+        // direct assembly: Type::new(path, params, definition, docs) over finalize()d pieces
+        let direct_expr = || -> String {
+            let path_arg = calls[0].trim_start_matches(".path(").strip_suffix(')').unwrap_or("").to_string();
+            let params_arg = calls.iter().find_map(|c| c.strip_prefix(".type_params(").and_then(|x| x.strip_suffix(')'))).map(|x| x.to_string()).unwrap_or_else(|| format!("Vec::<TypeParameter<{}>>::new()", if p { "PortableForm" } else { "MetaForm" }));
+            let def = match &self.body {
+                BBody::Composite(shape, fs) => format!("scale_info::TypeDefComposite::new({}.finalize())", fields_chain(*shape, fs, p, docs_feature, &c)),
+                _ => format!("{}.finalize()", tail.trim_start_matches(".variant(").strip_suffix(')').unwrap_or("")),
+            };
+            let docs = match &self.docs {
+                None => "Vec::new()".to_string(),
+                Some(d) => {
+                    if p {
+                        format!("vec![{}]", d.lines.iter().map(|x| format!("{}.to_string()", rust_str(x))).collect::<Vec<_>>().join(", "))
+                    } else {
+                        format!("vec![{}]", str_list(&d.lines))
+                    }
+                }
+            };
+            format!("Type::new({path_arg}, {params_arg}, {def}, {docs})")
+        };
         if p {
-            s.push_str(&format!("    let t: Type<PortableForm> = Type::builder_portable(){head}{tail};\n"));
+            if direct {
+                s.push_str(&format!("    let t: Type<PortableForm> = {};\n", direct_expr()));
+            } else {
+                s.push_str(&format!("    let t: Type<PortableForm> = Type::builder_portable(){head}{tail};\n"));
+            }
             s.push_str("    println!(\"PTYPE {}\", scale_info_json(&t));\n");
         } else {
-            s.push_str(&format!("    let t: Type<MetaForm> = Type::builder(){head}{tail};\n"));
+            if direct {
+                s.push_str(&format!("    let t: Type<MetaForm> = {};\n", direct_expr()));
+            } else {
+                s.push_str(&format!("    let t: Type<MetaForm> = Type::builder(){head}{tail};\n"));
+            }
             s.push_str("    println!(\"INFO 0 {}\", vsupport::dump_type(&t));\n");
             let members: Vec<String> = self.expected_members().iter().map(|f| if f.compact { format!("meta_type::<Compact<{}>>()", f.ty.rust(&c)) } else { format!("meta_type::<{}>()", f.ty.rust(&c)) }).collect();
             s.push_str(&format!("    let want_m: Vec<MetaType> = vec![{}];\n    println!(\"MEMBERS 0 {{}}\", vsupport::member_types(&t) == want_m);\n", members.join(", ")));
@@ -268,6 +301,16 @@ fn kept_docs(d: &Option<BDocs>, portable: bool, docs_feature: bool) -> Vec<Strin
     }
 }
 
+/// docs expected on the type itself: through the setters they follow the feature rules, handed to
+/// Type::new they are simply stored
+fn type_docs(t: &BType, docs_feature: bool) -> Vec<String> {
+    if t.assemble % 2 == 1 && !matches!(t.body, BBody::Tuple(_)) {
+        t.docs.as_ref().map(|d| d.lines.clone()).unwrap_or_default()
+    } else {
+        kept_docs(&t.docs, t.portable, docs_feature)
+    }
+}
+
 pub fn builder_body(t: &BType, obs: &mut Obs, docs_feature: bool) -> Result<(), String> {
     let feats: &[&str] = if docs_feature { &FULL } else { &FULL_NODOCS };
     let a = farm::anchor(feats)?;
@@ -314,7 +357,7 @@ pub fn builder_body(t: &BType, obs: &mut Obs, docs_feature: bool) -> Result<(), 
                         .collect(),
                 ),
             },
-            docs: kept_docs(&t.docs, p, docs_feature),
+            docs: type_docs(t, docs_feature),
         };
         if got != want {
             return Err(format!("[sig:builder-lossy] portable builder result differs from what was supplied: got {:?}, supplied {:?}", got, want));
@@ -332,7 +375,7 @@ pub fn builder_body(t: &BType, obs: &mut Obs, docs_feature: bool) -> Result<(), 
         if !is_tuple && got_params != want_params {
             return Err(format!("[sig:builder-lossy] type parameters {:?}, supplied {:?}", got_params, want_params));
         }
-        if !is_tuple && strs(&info["docs"]) != kept_docs(&t.docs, p, docs_feature) {
+        if !is_tuple && strs(&info["docs"]) != type_docs(t, docs_feature) {
             return Err(format!("[sig:builder-docs] type docs {:?}, supplied {:?} (docs feature {docs_feature})", strs(&info["docs"]), t.docs));
         }
         let cmp = |got: &Value, fs: Vec<(&BField, Shape)>, what: &str| -> Result<(), String> {
@@ -413,6 +456,9 @@ pub fn builder_body(t: &BType, obs: &mut Obs, docs_feature: bool) -> Result<(), 
         obs.nontrivial(&(t, docs_feature));
     }
     obs.class(if p { "form/portable" } else { "form/compile_time" });
+    if t.assemble % 2 == 1 && !matches!(t.body, BBody::Tuple(_)) {
+        obs.class("assembly/finalize_and_direct_constructors");
+    }
     obs.class(if docs_feature { "cfg/docs_on" } else { "cfg/docs_off" });
     if t.all_fields().iter().any(|(f, _)| !p && !f.compact && f.ty.is_phantom()) {
         obs.class("member/phantom_supplied");
@@ -490,11 +536,11 @@ pub fn btype(portable: bool) -> BoxedStrategy<BType> {
         .boxed()
     };
     let params = prop::option::weighted(0.5, vec((ident(), prop::option::weighted(0.7, gen::te(1, false, true, vec![])), prop::option::weighted(0.7, vcore::genreg::id_wild())), 0..3));
-    (vec(ident(), 1..4), params, bdocs(), body, any::<u8>())
-        .prop_map(move |(path, params, docs, body, order)| {
+    (vec(ident(), 1..4), params, bdocs(), body, any::<u8>(), prop::bool::weighted(0.3))
+        .prop_map(move |(path, params, docs, body, order, direct)| {
             // the compile-time form takes Some/None from the type, the portable form from the id
             let params = params.map(|ps| ps.into_iter().map(|(n, t, id)| if portable { (n, None, id) } else { (n, t, None) }).collect());
-            BType { portable, path, params, docs, body, order }
+            BType { portable, path, params, docs, body, order, assemble: direct as u8 }
         })
         .boxed()
 }
